@@ -95,6 +95,12 @@ GI = G[int]
 
 FAMILY: dict[str, type[State]] = {"A": A, "A2": A2, "R": R, "G": GI, "U": U, "F": F, "M": M, "IT": IT, "N": N}
 
+# WIDE contexts: twelve more plain state types (W0 .. W11) - a context carrying 9+ distinct types
+WIDE = [f"W{i}" for i in range(12)]
+for _w in WIDE:
+    FAMILY[_w] = type(_w, (State,), {"__annotations__": {"x": int, "tag": str}, "x": 0, "tag": "", "__module__": __name__})
+
+
 # supply alphabet: lists of type names (two entries of one type = two instances, last wins)
 SUPPLY = [
     [],
